@@ -18,6 +18,8 @@ pub struct Spec {
     pub rows: Vec<Vec<(u32, i32)>>,
     /// extra rows (integer combinations of the first `dim`) for the lattice index; empty = det only
     pub extra_rows: Vec<Vec<(u32, i32)>>,
+    /// if not empty: the generating set given to the lattice index routine instead of rows + extra_rows
+    pub index_rows: Vec<Vec<(u32, i32)>>,
     pub kind: String,
     /// determinant known by construction (decimal), if any
     pub known_det: Option<String>,
@@ -31,6 +33,7 @@ impl Spec {
             "known_det": self.known_det,
             "rows": self.rows.iter().map(|r| r.iter().map(|&(j, e)| json!([j, e])).collect::<Vec<_>>()).collect::<Vec<_>>(),
             "extra_rows": self.extra_rows.iter().map(|r| r.iter().map(|&(j, e)| json!([j, e])).collect::<Vec<_>>()).collect::<Vec<_>>(),
+            "index_rows": self.index_rows.iter().map(|r| r.iter().map(|&(j, e)| json!([j, e])).collect::<Vec<_>>()).collect::<Vec<_>>(),
         })
     }
     fn from_json(v: &Value) -> Spec {
@@ -53,6 +56,7 @@ impl Spec {
             dim: v["dim"].as_u64().unwrap() as usize,
             rows: rows("rows"),
             extra_rows: rows("extra_rows"),
+            index_rows: rows("index_rows"),
             kind: v["kind"].as_str().unwrap_or("").to_string(),
             known_det: v["known_det"].as_str().map(|s| s.to_string()),
         }
@@ -62,6 +66,7 @@ impl Spec {
             "dim": self.dim, "kind": self.kind, "known_det": self.known_det,
             "nonzeros": self.rows.iter().map(|r| r.len()).sum::<usize>(),
             "extra_rows": self.extra_rows.len(),
+            "index_rows": self.index_rows.len(),
             "first_rows": self.rows.iter().take(3).map(|r| r.iter().map(|&(j, e)| json!([j, e])).collect::<Vec<_>>()).collect::<Vec<_>>(),
         })
     }
@@ -112,11 +117,74 @@ fn sparse_of_dense(d: &[Vec<i64>]) -> Vec<Vec<(u32, i32)>> {
         .collect()
 }
 
+/// Rows of the lattice spanned by `dense` (so the index of the row lattice stays |det|): either
+/// +-1/2 combinations of two basis rows (minors of a row selection are then 0, +-1, +-2 times the
+/// index) or, half of the time, combinations of up to three basis rows with coefficients up to
+/// 6 in absolute value: the first minors are then larger multiples c of the index, several divisors
+/// of the running gcd fall inside the bounds and compute_lattice_index has to fold more minors.
+fn gen_extra_rows(rng: &mut Rng, dense: &[Vec<i64>], dim: usize) -> Vec<Vec<(u32, i32)>> {
+    let mut extra = vec![];
+    let rich = rng.chance(0.5);
+    let nextra = if rich { rng.range(2, 8) } else { rng.range(2, 6) };
+    for _ in 0..nextra {
+        let row: Vec<i64> = if rich {
+            let k = rng.range(1, 3);
+            let mut row = vec![0i64; dim];
+            for _ in 0..k {
+                let i = rng.below(dim as u64) as usize;
+                let m = *rng.pick(&[1i64, -1, 2, -2, 3, -3, 4, -4, 5, -5, 6, -6, 4, 5, 6]);
+                for c in 0..dim {
+                    row[c] += m * dense[i][c];
+                }
+            }
+            row
+        } else {
+            let i = rng.below(dim as u64) as usize;
+            let j = rng.below(dim as u64) as usize;
+            let (mi, mj) = (*rng.pick(&[1i64, -1, 2]), *rng.pick(&[1i64, -1, 0]));
+            (0..dim).map(|c| mi * dense[i][c] + mj * dense[j][c]).collect()
+        };
+        if row.iter().all(|v| v.abs() <= 30000) && row.iter().any(|&v| v != 0) {
+            extra.push(row.iter().enumerate().filter(|(_, &v)| v != 0).map(|(c, &v)| (c as u32, v as i32)).collect());
+        }
+    }
+    extra
+}
+
+/// A generating set of the lattice spanned by `dense`, as real relation matrices are: the basis
+/// rows and a few copies, mixed by random unimodular row operations over the whole set, so that
+/// most selections of `dim` rows are non-singular and their minors are varied multiples of the index.
+fn gen_mixed_rows(rng: &mut Rng, dense: &[Vec<i64>], dim: usize) -> Vec<Vec<(u32, i32)>> {
+    let k = rng.range(2, 10) as usize;
+    let mut all: Vec<Vec<i64>> = dense.to_vec();
+    for _ in 0..k {
+        let i = rng.below(dim as u64) as usize;
+        all.push(dense[i].clone());
+    }
+    let total = all.len();
+    let ops = rng.range(3 * total as u64, 8 * total as u64);
+    for _ in 0..ops {
+        let i = rng.below(total as u64) as usize;
+        let j = rng.below(total as u64) as usize;
+        if i == j {
+            continue;
+        }
+        let m = *rng.pick(&[1i64, -1, 1, -1, 1, -1, 2, -2]);
+        let new: Vec<i64> = (0..dim).map(|c| all[i][c] + m * all[j][c]).collect();
+        if new.iter().all(|v| v.abs() <= 30000) {
+            all[i] = new;
+        }
+    }
+    all.iter()
+        .map(|row| row.iter().enumerate().filter(|(_, &v)| v != 0).map(|(c, &v)| (c as u32, v as i32)).collect())
+        .collect()
+}
+
 pub fn gen_spec(rng: &mut Rng, tier: Tier) -> Spec {
     let mut spec = gen_matrix(rng, tier);
     // lattice index variant: extra rows that are small combinations of basis rows, so the row
     // lattice (and its index, |det|) is unchanged
-    if spec.extra_rows.is_empty() && spec.kind != "singular_repeated_row" && rng.chance(0.35) {
+    if spec.extra_rows.is_empty() && spec.kind != "singular_repeated_row" && rng.chance(0.5) {
         let dim = spec.dim;
         let dense: Vec<Vec<i64>> = spec
             .rows
@@ -129,19 +197,13 @@ pub fn gen_spec(rng: &mut Rng, tier: Tier) -> Spec {
                 d
             })
             .collect();
-        let nextra = rng.range(2, 6);
-        for _ in 0..nextra {
-            let i = rng.below(dim as u64) as usize;
-            let j = rng.below(dim as u64) as usize;
-            let (mi, mj) = (*rng.pick(&[1i64, -1, 2]), *rng.pick(&[1i64, -1, 0]));
-            let row: Vec<i64> = (0..dim).map(|c| mi * dense[i][c] + mj * dense[j][c]).collect();
-            if row.iter().all(|v| v.abs() <= 100) && row.iter().any(|&v| v != 0) {
-                spec.extra_rows.push(
-                    row.iter().enumerate().filter(|(_, &v)| v != 0).map(|(c, &v)| (c as u32, v as i32)).collect(),
-                );
-            }
+        if rng.chance(0.65) {
+            spec.index_rows = gen_mixed_rows(rng, &dense, dim);
+            spec.kind.push_str("+lattice_index_mixed");
+        } else {
+            spec.extra_rows = gen_extra_rows(rng, &dense, dim);
+            spec.kind.push_str("+lattice_index");
         }
-        spec.kind.push_str("+lattice_index");
     }
     spec
 }
@@ -174,7 +236,7 @@ fn gen_matrix(rng: &mut Rng, tier: Tier) -> Spec {
             }
             rows.push(row);
         }
-        return Spec { dim, rows, extra_rows: vec![], kind: "heavy_diagonal_large_det".into(), known_det: None };
+        return Spec { dim, rows, extra_rows: vec![], index_rows: vec![], kind: "heavy_diagonal_large_det".into(), known_det: None };
     }
     let dim = match rng.below(3) {
         0 => rng.range(8, 16),
@@ -200,7 +262,7 @@ fn gen_matrix(rng: &mut Rng, tier: Tier) -> Spec {
                 }
                 rows.push(row);
             }
-            Spec { dim, rows, extra_rows: vec![], kind: "polynomial_pattern".into(), known_det: None }
+            Spec { dim, rows, extra_rows: vec![], index_rows: vec![], kind: "polynomial_pattern".into(), known_det: None }
         }
         1 => {
             // relation-like: a permutation-ish backbone plus a few random small entries
@@ -218,7 +280,7 @@ fn gen_matrix(rng: &mut Rng, tier: Tier) -> Spec {
                 }
                 rows.push(row);
             }
-            Spec { dim, rows, extra_rows: vec![], kind: "relation_like".into(), known_det: None }
+            Spec { dim, rows, extra_rows: vec![], index_rows: vec![], kind: "relation_like".into(), known_det: None }
         }
         2 => {
             // a chosen diagonal hit by sparse elementary row operations: determinant known
@@ -258,21 +320,10 @@ fn gen_matrix(rng: &mut Rng, tier: Tier) -> Spec {
             let rows = sparse_of_dense(&d);
             // lattice index variant: add rows that are combinations of the basis rows
             let mut extra_rows = vec![];
-            if rng.chance(0.4) {
-                let nextra = rng.range(2, 6);
-                for _ in 0..nextra {
-                    let i = rng.below(dim as u64) as usize;
-                    let j = rng.below(dim as u64) as usize;
-                    let (mi, mj) = (*rng.pick(&[1i64, -1, 2]), *rng.pick(&[1i64, -1, 0]));
-                    let row: Vec<i64> = (0..dim).map(|c| mi * d[i][c] + mj * d[j][c]).collect();
-                    if row.iter().all(|v| v.abs() <= 100) {
-                        extra_rows.push(
-                            row.iter().enumerate().filter(|(_, &v)| v != 0).map(|(c, &v)| (c as u32, v as i32)).collect(),
-                        );
-                    }
-                }
+            if rng.chance(0.6) {
+                extra_rows = gen_extra_rows(rng, &d, dim);
             }
-            Spec { dim, rows, extra_rows, kind: "known_diagonal_transformed".into(), known_det: Some(det.to_string()) }
+            Spec { dim, rows, extra_rows, index_rows: vec![], kind: "known_diagonal_transformed".into(), known_det: Some(det.to_string()) }
         }
         _ => {
             // singular: a repeated row
@@ -283,7 +334,7 @@ fn gen_matrix(rng: &mut Rng, tier: Tier) -> Spec {
             let a = rng.below(dim as u64) as usize;
             let b = (a + 1 + rng.below(dim as u64 - 1) as usize) % dim;
             rows[b] = rows[a].clone();
-            Spec { dim, rows, extra_rows: vec![], kind: "singular_repeated_row".into(), known_det: Some("0".into()) }
+            Spec { dim, rows, extra_rows: vec![], index_rows: vec![], kind: "singular_repeated_row".into(), known_det: Some("0".into()) }
         }
     }
 }
@@ -306,14 +357,14 @@ pub fn run_lattice(spec: &Spec, threads: Option<usize>, cfg: SimConfig) -> RunOu
         let mat = SparseMat::new(s.rows.clone());
         let det = mat.detz(pool.as_ref());
         let mut index = None;
-        if !s.extra_rows.is_empty() && !det.is_zero() {
-            let mut all = s.rows.clone();
+        if (!s.extra_rows.is_empty() || !s.index_rows.is_empty()) && !det.is_zero() {
+            let mut all = if s.index_rows.is_empty() { s.rows.clone() } else { s.index_rows.clone() };
             all.extend(s.extra_rows.iter().cloned());
             let h = {
                 // |det| as f64 from its decimal string (small enough in this family)
                 det.unsigned_abs().to_string().parse::<f64>().unwrap_or(f64::INFINITY)
             };
-            if h.is_finite() && h < 1e60 {
+            if h.is_finite() && h < 1e70 {
                 let idx = intsparse::compute_lattice_index(s.dim, &all, 0.95 * h, 1.05 * h, pool.as_ref());
                 index = Some(idx.to_string());
             }
@@ -397,7 +448,7 @@ impl Family for LatticeFamily {
 
     fn count(&self, _prop: &str, tier: Tier) -> u64 {
         match tier {
-            Tier::Quick => 3000,
+            Tier::Quick => 6000,
             Tier::Thorough => 30000,
         }
     }
@@ -420,6 +471,7 @@ impl Family for LatticeFamily {
         rep.absorb(&reference.sim, false);
         if reference.sim.end != RunEnd::Completed {
             // sequential routine fails on this input: input-only, outside the simulated slice
+            rep.stat(&format!("reference_failed_kind_{}", spec.kind), 1);
             rep.reference_failed = Some(format!("{} {}", reference.sim.end.class(), match &reference.sim.end {
                 RunEnd::Panic { message, .. } => message.chars().take(100).collect::<String>(),
                 _ => String::new(),
